@@ -94,7 +94,7 @@ fn body_strategy() -> BoxedStrategy<Case> {
                 2 => any::<u16>().prop_map(SrcEnd::EncodeFail),
             ];
             (
-                proptest::collection::vec(msg_spec(bs.min(1000), yt.min(1000), prost), n),
+                proptest::collection::vec(msg_spec(bs, yt, prost), n),
                 gen::pend_pattern(n + 2),
                 prop_oneof![Just(Role::Client), Just(Role::Server)],
                 gen::enc_opt(),
@@ -102,10 +102,13 @@ fn body_strategy() -> BoxedStrategy<Case> {
                 end,
             )
                 .prop_map(move |(mut msgs, src_pend, role, enc, disable, end)| {
-                    // keep ordinary messages well under the limit used for the encode-failure outcome
-                    for m in msgs.iter_mut() {
-                        if m.data.len() > 600 {
-                            m.data = Blob::Rep(600, 7);
+                    // keep ordinary messages well under the limit used for the encode-failure outcome;
+                    // the other outcomes keep their occasional large (up to 70 KiB) messages
+                    if matches!(end, SrcEnd::EncodeFail(_)) {
+                        for m in msgs.iter_mut() {
+                            if m.data.len() > 600 {
+                                m.data = Blob::Rep(600, 7);
+                            }
                         }
                     }
                     Case::Body(BodyCase { prost, buffer_size: bs, yield_threshold: yt, role, enc, disable: disable && role == Role::Server, msgs, src_pend, end })
@@ -299,6 +302,10 @@ fn run_body(c: &BodyCase, o: &mut Outcome) -> Result<(), Failure> {
         go!(items, RawCodec::with(c.buffer_size, c.yield_threshold).encoder())
     };
 
+    if let Some(v) = out.contract_violation() {
+        bail!("C03/body-contract", "{v}");
+    }
+    o.label_if(c.msgs.iter().take(stop).any(|m| m.data.len() > 32768), "msg>32KiB");
     // ---- shape of the transcript
     let mut trailers: Vec<(usize, &HeaderMap)> = vec![];
     let mut errs: Vec<(usize, &Status)> = vec![];
